@@ -179,6 +179,10 @@ RichUnary(m) ==
        [op |-> "group", g |-> "id", sel |-> 99],
        [op |-> "group", g |-> "fs2", sel |-> 0], [op |-> "group", g |-> "fs2", sel |-> 1],
        [op |-> "group", g |-> "mix2", sel |-> 0], [op |-> "group", g |-> "mix2", sel |-> 1],
+       \* a custom sort function (another total order than `sorted`)
+       [op |-> "sort", key |-> "id", rev |-> FALSE, sfn |-> "m3"], [op |-> "sort", key |-> "id", rev |-> TRUE, sfn |-> "m3"],
+       [op |-> "sort", key |-> "neg", rev |-> FALSE, sfn |-> "m3"], [op |-> "sort", key |-> "mod2", rev |-> TRUE, sfn |-> "m3"],
+       [op |-> "sort", key |-> "none", rev |-> FALSE, sfn |-> "m3"], [op |-> "sort", key |-> "none", rev |-> TRUE, sfn |-> "m3"],
        [op |-> "sort", key |-> "big", rev |-> FALSE], [op |-> "sort", key |-> "big", rev |-> TRUE],
        [op |-> "sort", key |-> "biginf", rev |-> FALSE], [op |-> "sort", key |-> "biginf", rev |-> TRUE],
        [op |-> "catch", E |-> "Exception"],
